@@ -301,6 +301,11 @@ func effectiveProps(o *Obligation, fprops []string, tier2 bool) []string {
 	if len(o.Props) > 0 {
 		return o.Props
 	}
+	if o.Kind == "abort" {
+		// a reachable call that ends the process: the plugin does not exit successfully (C01), besides
+		// whatever the function stands for
+		return append([]string{"C01"}, fprops...)
+	}
 	if tier2 {
 		// glue functions of Tier 3 (compositions of the converters): everything belongs to the lemma's property
 		for pre, prop := range map[string]string{"RoundTrip_": "C04", "Echo_": "C08", "Refresh_": "C09"} {
